@@ -272,6 +272,8 @@ enum InputSpec {
     /// tmo: 0 = no timeout_ms, 1 = generous, 2 = expires (tool must be BashSleep)
     ToolEnv { tool: Tool, tmo: u8 },
     CkCreate { ok: bool },
+    /// a checkpoint create that names no file at all (`files: []`): an input of the third kind like any other
+    CkCreateEmpty,
     CkRewindMissing,
     /// rewind of a checkpoint that exists FOR THIS SESSION ID (checkpoints are per session and a session gets one
     /// input, so the harness files the checkpoint in the workspace store itself, under the id of the session that
@@ -669,6 +671,7 @@ fn input_text(i: &InputSpec, n: usize) -> String {
             let files = if *ok { json!(["a.txt"]) } else { json!(["/nonexistent-c07/abs.txt"]) };
             json!({"checkpoint": {"action": "create", "label": "c07", "files": files}}).to_string()
         }
+        InputSpec::CkCreateEmpty => json!({"checkpoint": {"action": "create", "label": "c07-empty", "files": []}}).to_string(),
         InputSpec::CkRewindMissing | InputSpec::CkRewindOwn => json!({"checkpoint": {"action": "rewind", "id": "no-such-checkpoint"}}).to_string(),
     }
 }
@@ -1703,6 +1706,7 @@ fn input_term(i: &InputSpec, p: Option<&ProviderSpec>, preds: &[Pred], cal: &Cal
         InputSpec::Prompt => format!("(IPrompt {} {})", coq_bool(compile_ok), match p { Some(p) => reqs_term(p, preds, cal, cx), None => "[]".into() }),
         InputSpec::ToolEnv { tool, tmo } => format!("(ITool {} {})", coq_bool(tool.lock()), tool_out_term(*tool, &tool_res(*tool, cal, *tmo == 2, cx), cx)),
         InputSpec::CkCreate { ok } => format!("(ICheckpoint {})", if *ok { "CkCreatedOk" } else { "CkFail" }),
+        InputSpec::CkCreateEmpty => "(ICheckpoint CkCreatedOk)".to_string(),
         InputSpec::CkRewindMissing => "(ICheckpoint CkFail)".into(),
         InputSpec::CkRewindOwn => "(ICheckpoint CkRewoundOk)".into(),
     }
@@ -2040,7 +2044,7 @@ fn gen_input(r: &mut Rng) -> InputSpec {
                 InputSpec::ToolEnv { tool: gen_call_tool(r), tmo: r.below(2) as u8 }
             }
         }
-        8 => InputSpec::CkCreate { ok: r.chance(2, 3) },
+        8 => if r.chance(1, 4) { InputSpec::CkCreateEmpty } else { InputSpec::CkCreate { ok: r.chance(2, 3) } },
         _ if r.chance(1, 2) => InputSpec::CkRewindOwn,
         _ => InputSpec::CkRewindMissing,
     }
@@ -2198,7 +2202,7 @@ fn side_write_cases(r: &mut Rng, thorough: bool) -> Vec<Case> {
     let text = || text_req(vec![Sse::Created { id: true }, Sse::Delta, Sse::Completed { id: true }]);
     let next = |k: u64| -> Act {
         match k % 9 {
-            8 => Act::Post { input: InputSpec::CkCreate { ok: true }, provider: None },
+            8 => Act::Post { input: if k % 2 == 0 { InputSpec::CkCreateEmpty } else { InputSpec::CkCreate { ok: true } }, provider: None },
             7 => Act::Post { input: InputSpec::ToolEnv { tool: Tool::BashOverflow, tmo: 0 }, provider: None },
             0 => Act::Post { input: InputSpec::Prompt, provider: None },
             1 => Act::Post { input: InputSpec::Prompt, provider: prov(vec![text()]) },
@@ -2322,6 +2326,7 @@ fn label(c: &Case) -> Vec<String> {
                     InputSpec::ToolEnv { tool: Tool::Damage(_), .. } => "input=tool-Damage".to_string(),
                     InputSpec::ToolEnv { tool, .. } => format!("input=tool-{tool:?}"),
                     InputSpec::CkCreate { ok } => format!("input=checkpoint-create-{ok}"),
+                    InputSpec::CkCreateEmpty => "input=checkpoint-create-empty".to_string(),
                     InputSpec::CkRewindMissing => "input=checkpoint-rewind-missing".to_string(),
                     InputSpec::CkRewindOwn => "input=checkpoint-rewind-own".to_string(),
                 });
